@@ -163,3 +163,126 @@ def ob_rewind(nw: int, b0: bool, b1: bool, b2: bool, q: int) -> bool:
         if n_run != (1 if k in new else 0):
             return False
     return not [1 for (_, s, n, w) in ch if s == StepState.NOT_RUNNING]
+
+
+# ----------------------------------------------------------------------------------------------- whole run
+
+
+from workflows import Context, Workflow, step  # noqa: E402
+from workflows.events import Event, InputRequiredEvent as _IRE, StartEvent, StopEvent  # noqa: E402
+from workflows.retry_policy import retry_policy, stop_after_attempt, wait_fixed  # noqa: E402
+from vlib.h_handlers import conc  # noqa: E402
+from vlib.h_idle import install_speedups  # noqa: E402
+
+install_speedups()  # tooling only; every solver decision is taken before the scenario starts
+
+
+class TJob(Event):
+    i: int
+
+
+class TDone(Event):
+    i: int
+
+
+class TAsk(_IRE):
+    i: int
+
+
+@obligation(quick=240, thorough=900,
+            partitions_quick=[f"c0 == {a} and c1 == {b}" for a in range(3) for b in range(3)],
+            partitions_thorough=[f"c0 == {a} and c1 == {b} and c2 == {c}" for a in range(3) for b in range(3) for c in range(3)],
+            what="whole run of the real run() loop under a symbolic schedule (3 jobs fan out to a 2-worker step — so one has to wait for capacity —, "
+                 "job 0 may fail once and be retried, one job returns an InputRequiredEvent, collect join): on the PUBLISHED stream every "
+                 "(step, worker) alternates RUNNING / NOT_RUNNING starting with RUNNING (a RUNNING stays open only when the run ends first), nothing "
+                 "follows the terminal event, the InputRequiredEvent is published exactly once per invocation that returned one",
+            bounds={"schedule decisions": "4 (quick) / 6 (thorough), 3 options each", "workers": 2, "jobs": 3, "failures": "0..1"})
+def ob_whole_run_stream(nfail: int, c0: int, c1: int, c2: int, c3: int, c4: int, c5: int) -> bool:
+    """
+    pre: 0 <= nfail <= 1 and 0 <= c0 <= 2 and 0 <= c1 <= 2 and 0 <= c2 <= 2 and 0 <= c3 <= 2 and 0 <= c4 <= 2 and 0 <= c5 <= 2
+    pre: WR_DEEP or (c4 == 0 and c5 == 0)
+    post: _
+    """
+    from vlib.sched import Env, SymAdapter, SymRuntime, run_loop
+
+    nfail, c0, c1, c2, c3, c4, c5 = conc(nfail, 0, 1), conc(c0, 0, 2), conc(c1, 0, 2), conc(c2, 0, 2), conc(c3, 0, 2), conc(c4, 0, 2), conc(c5, 0, 2)
+    env = Env([c0, c1, c2, c3, c4, c5])
+    published: list = []
+    book = {"fails": 0}
+
+    class RecAdapter(SymAdapter):
+        async def write_to_event_stream(self, event) -> None:
+            published.append(event)
+            await super().write_to_event_stream(event)
+
+    class Rt(SymRuntime):
+        def get_internal_adapter(self, workflow):
+            return RecAdapter(super().get_internal_adapter(workflow), self.env)
+
+    class W(Workflow):
+        @step
+        async def start(self, ctx: Context, ev: StartEvent) -> TJob | None:
+            ctx.send_event(TJob(i=0))
+            ctx.send_event(TJob(i=1))
+            return TJob(i=2)
+
+        @step(num_workers=2, retry_policy=retry_policy(wait=wait_fixed(0), stop=stop_after_attempt(3)))
+        async def work(self, ctx: Context, ev: TJob) -> TDone | TAsk:
+            await env.gate(ev.i)
+            if ev.i == 0 and book["fails"] < nfail:
+                book["fails"] += 1
+                raise ValueError("transient")
+            if ev.i == 2:
+                return TAsk(i=2)
+            return TDone(i=ev.i)
+
+        @step
+        async def join(self, ctx: Context, ev: TDone) -> StopEvent | None:
+            got = ctx.collect_events(ev, [TDone, TDone])
+            if got is None:
+                return None
+            return StopEvent(result=sorted(e.i for e in got))
+
+    res: list = []
+
+    async def main():
+        res.append(await W(timeout=None, runtime=Rt(env)).run(run_id="r"))
+
+    run_loop(main)
+    if res != [[0, 1]]:
+        return False
+    open_: dict = {}
+    prep = 0
+    asks = 0
+    ask_results = 0
+    ended = False
+    for e in published:
+        if ended:
+            return False                      # nothing after the terminal event
+        if isinstance(e, StopEvent):
+            ended = True
+            continue
+        if isinstance(e, TAsk):
+            asks += 1
+            continue
+        if not isinstance(e, StepStateChanged):
+            continue
+        key = (e.name, e.worker_id)
+        if e.step_state == StepState.PREPARING:
+            prep += 1
+        elif e.step_state == StepState.RUNNING:
+            if open_.get(key):
+                return False                  # RUNNING on a worker that is already RUNNING
+            open_[key] = True
+        elif e.step_state == StepState.NOT_RUNNING:
+            if not open_.get(key):
+                return False                  # NOT_RUNNING without a RUNNING
+            open_[key] = False
+            if "TAsk" in str(e.output_event_name):
+                ask_results += 1              # the invocation that returned the InputRequiredEvent was closed on the stream
+    # a RUNNING may stay open only because the run ended first (the statement's exception); an InputRequiredEvent is published
+    # exactly once per invocation that returned one (and whose completion reached the stream)
+    return ended and asks == ask_results and asks <= 1
+
+
+WR_DEEP = B(False, True)
